@@ -13,3 +13,6 @@ XLemmas.vos XLemmas.vok XLemmas.required_vos: XLemmas.v PyAst.vos PyVal.vos PySe
 Unfold.vo Unfold.glob Unfold.v.beautified Unfold.required_vo: Unfold.v PyAst.vo PyVal.vo PySem.vo
 Unfold.vio: Unfold.v PyAst.vio PyVal.vio PySem.vio
 Unfold.vos Unfold.vok Unfold.required_vos: Unfold.v PyAst.vos PyVal.vos PySem.vos
+Tactics.vo Tactics.glob Tactics.v.beautified Tactics.required_vo: Tactics.v PyAst.vo PyVal.vo PySem.vo XLemmas.vo
+Tactics.vio: Tactics.v PyAst.vio PyVal.vio PySem.vio XLemmas.vio
+Tactics.vos Tactics.vok Tactics.required_vos: Tactics.v PyAst.vos PyVal.vos PySem.vos XLemmas.vos
